@@ -21,8 +21,8 @@
   `modes-differ:<op>`).
 
   Repaired in /repo and moved INTO the region (regression theorems below): a rebase with nothing to replay no longer
-  leaves the hook mask on (52b736f3: `regression_noop_rebase_restores_mask`, `RebaseFacts.noop` admitted by `Op.wf` /
-  `Op.agree` / `Op.clears`); after `rebase --abort` the first checkpoint restores the masked entry points (bdec53b6:
+  leaves the hook mask on (5e878e7b: `regression_noop_rebase_restores_mask`, `RebaseFacts.noop` admitted by `Op.wf` /
+  `Op.agree` / `Op.clears`); after `rebase --abort` the first checkpoint restores the masked entry points (a1769f45:
   `Op.agentCheckpoint`, `checkpoint_after_abort_restores`, `regression_commit_after_abort`).
 -/
 import GitAiModel.Lemmas.HookMode
@@ -389,7 +389,7 @@ theorem witness_abort_leaves_mask (sH : St) (r : RebaseFacts) (hs : sH.side = { 
     (hooks sH (.rebaseAbort r)).1.side = { mask := true } := by
   hm_simp
 
-/-- **regression (fix bdec53b6)**: … until the next `git-ai checkpoint` — the first thing an agent does before it
+/-- **regression (fix a1769f45)**: … until the next `git-ai checkpoint` — the first thing an agent does before it
     edits — whose entry point now restores stale masked hooks (checkout and rewrite did so before). -/
 theorem checkpoint_after_abort_restores (sH : St) (r : RebaseFacts) (hs : sH.side = { mask := true }) :
     (hooks (hooks sH (.rebaseAbort r)).1 (.agentCheckpoint false)).1.side = {} := by
@@ -425,7 +425,7 @@ theorem witness_reset_after_abort :
 def exNoop : RebaseFacts :=
   { exRebase with pairs := [], newChain := [], chain := [2, 3], inner := [], newHead := 5 }
 
-/-- **regression (fix 52b736f3; was `witness_noop_rebase_leaves_mask`)**: the checkout of the new base restores the
+/-- **regression (fix 5e878e7b; was `witness_noop_rebase_leaves_mask`)**: the checkout of the new base restores the
     entry points also for a plain `git rebase`, so the operations that follow are seen (here a reset and a commit) -/
 theorem regression_noop_rebase_restores_mask :
     (hooks St.init (.rebase exNoop)).1.side = {} ∧ (hooks St.init (.pullRebase exNoop)).1.side = {} ∧
